@@ -71,7 +71,7 @@ fn do_query(db: &anything::Db, src: &str, describe: bool) -> Value {
     for v in anything::query(&parsed, db, options, &mut descriptions) {
         match v {
             Ok(n) => out.push(json!({"ok": [n.value.numer().to_string(), n.value.denom().to_string(), names(&n.unit)],
-                                     "unit_text": n.unit.to_string()})),
+                                     "unit_text": n.unit.to_string(), "unit_plural": n.unit.display(true).to_string()})),
             Err(e) => {
                 let r = e.range();
                 let boundary = r.start <= r.end
